@@ -85,6 +85,9 @@ type LCfg struct {
 	MapSet  string                // Coq function for m[k] = v :  MapSet m k v
 	Types   map[string]string     // Go named type -> Coq type (overrides the structural mapping)
 	EqFns   map[string]string     // Go named type -> Coq boolean equality used for == and !=
+	// IdentityConv: conversions to these integer types are the identity (documented per generator:
+	// the converted values are indices / counts far below the type's range)
+	IdentityConv map[string]bool
 	// callee-keyed forms of the idioms (robust against renaming of locals); templates use $0 for
 	// the receiver and $1.. for the arguments, translated on demand
 	ErrCallsBy  map[string]*ErrCall // callee -> effect call in  if err := CALL; err != nil {..}
@@ -156,6 +159,7 @@ type LT struct {
 	opaque  map[string]string     // variables of an opaque type -> that type's name
 	poison  map[string]string     // locals whose initialiser is outside the grammar -> reason (an error only if used)
 	depth   int                   // helper inlining depth
+	elemOf   map[string]string            // source text "X[i]" of an index loop `for i := range X` -> the element variable
 	funcVals map[string]*ast.SelectorExpr // function-valued parameters of an inlined helper bound to method values
 	retHook  func(s *ast.ReturnStmt, k kont) (string, error) // returns of a helper inlined at statement level
 }
@@ -606,6 +610,9 @@ func (t *LT) exprP(e ast.Expr) (string, bool, error) {
 		}
 		return "(" + pj + " " + v + ")", false, nil
 	case *ast.IndexExpr:
+		if v, ok := t.elemOf[t.src(x)]; ok {
+			return v, false, nil
+		}
 		if t.fn.ElemIndex {
 			if r, ok := x.X.(*ast.Ident); ok && r.Name == t.recv {
 				if i, ok := x.Index.(*ast.Ident); ok {
@@ -666,6 +673,9 @@ func (t *LT) exprP(e ast.Expr) (string, bool, error) {
 			from := t.p.Info.Types[x.Args[0]].Type
 			if from != nil && isIntType(tv.Type) && isIntType(from) &&
 				intWidth(tv.Type) == intWidth(from) && intSigned(tv.Type) == intSigned(from) {
+				return t.exprP(x.Args[0])
+			}
+			if from != nil && isIntType(tv.Type) && isIntType(from) && t.cfg.IdentityConv[tv.Type.String()] {
 				return t.exprP(x.Args[0])
 			}
 			if from != nil && isStringType(tv.Type) && isStringType(from) {
@@ -786,13 +796,20 @@ func (t *LT) inlineCall(c *ast.CallExpr, key string, recv ast.Expr) (string, boo
 	// evaluate the arguments in the caller's environment
 	type bnd struct{ name, coq, val string }
 	var binds []bnd
+	sameRecv := ""
+	var optParams []string
 	if fd.Recv != nil && len(fd.Recv.List) == 1 && len(fd.Recv.List[0].Names) == 1 && recv != nil {
-		v, err := t.expr(recv)
-		if err != nil {
-			return "", false, true, err
-		}
 		n := fd.Recv.List[0].Names[0].Name
-		binds = append(binds, bnd{n, pfx + n, v})
+		if id, ok := recv.(*ast.Ident); ok && id.Name == t.recv && t.recv != "" && len(t.fn.RecvFields) > 0 {
+			// a method called on the caller's own receiver: the helper reads the same state variables
+			sameRecv = n
+		} else {
+			v, err := t.expr(recv)
+			if err != nil {
+				return "", false, true, err
+			}
+			binds = append(binds, bnd{n, pfx + n, v})
+		}
 	}
 	i := 0
 	for _, f := range fd.Type.Params.List {
@@ -800,11 +817,18 @@ func (t *LT) inlineCall(c *ast.CallExpr, key string, recv ast.Expr) (string, boo
 			if i >= len(c.Args) {
 				return "", false, false, nil
 			}
+			if id, ok := c.Args[i].(*ast.Ident); ok && t.fn.SkipParams[id.Name] {
+				i++
+				continue // an unmodelled parameter of the caller handed on
+			}
 			v, err := t.expr(c.Args[i])
 			if err != nil {
 				return "", false, true, err
 			}
 			binds = append(binds, bnd{n.Name, pfx + n.Name, v})
+			if t.exprIsOption(c.Args[i]) {
+				optParams = append(optParams, n.Name)
+			}
 			i++
 		}
 	}
@@ -821,18 +845,38 @@ func (t *LT) inlineCall(c *ast.CallExpr, key string, recv ast.Expr) (string, boo
 	hf := *t.fn
 	hf.Returns, hf.Atoms, hf.ErrCalls, hf.SumCalls, hf.StmtCalls, hf.SkipStmts, hf.OptionVars = nil, map[string]string{}, nil, nil, nil, nil, nil
 	hf.RecvFields, hf.ElemIndex = nil, false
-	hf.RetWrap = "%s"
-	if t.fn.Partial || t.fn.Panic != "" {
-		hf.RetWrap, hf.Panic, hf.Partial = "(Some %s)", "None", true
+	if sameRecv != "" {
+		hf.RecvFields = t.fn.RecvFields
 	}
-	t.fn, t.recv = &hf, ""
-	t.env = map[string]string{}
-	t.optVars, t.alias, t.poison = map[string]bool{}, map[string]ast.Expr{}, map[string]string{}
-	for _, b := range binds {
-		t.env[b.name] = b.coq
+	// first as a total function; if its body may panic (and the caller can express that), as a
+	// partial one whose value is an option
+	var body string
+	var err error
+	outerHook := t.retHook
+	t.retHook = nil // the helper's returns are its own
+	defer func() { t.retHook = outerHook }()
+	for attempt := 0; attempt < 2; attempt++ {
+		hf.RetWrap, hf.Panic, hf.Partial = "%s", "", false
+		if attempt == 1 {
+			hf.RetWrap, hf.Panic, hf.Partial = "(Some %s)", "None", true
+		}
+		t.fn, t.recv = &hf, sameRecv
+		t.env = map[string]string{}
+		t.optVars, t.alias, t.poison = map[string]bool{}, map[string]ast.Expr{}, map[string]string{}
+		for _, b := range binds {
+			t.env[b.name] = b.coq
+		}
+		for _, n := range optParams {
+			t.optVars[n] = true
+		}
+		t.esc = false
+		nk := t.nK
+		body, err = t.block(t.normStmts(fd.Body.List), kont{ret: func(v string) string { return v }})
+		if err == nil || !(saved.fn.Partial || saved.fn.Panic != "") {
+			break
+		}
+		t.nK = nk
 	}
-	t.esc = false
-	body, err := t.block(t.normStmts(fd.Body.List), kont{ret: func(v string) string { return v }})
 	t.env, t.fn, t.recv, t.optVars, t.alias, t.poison, t.esc = saved.env, saved.fn, saved.recv, saved.optVars, saved.alias, saved.poison, saved.esc
 	if err != nil {
 		return "", false, true, fmt.Errorf("inlining %s: %v", key, err)
@@ -862,6 +906,23 @@ func (t *LT) composite(cl *ast.CompositeLit) (string, error) {
 		return "[" + strings.Join(els, "; ") + "]", nil
 	}
 	name := namedName(ty)
+	// positional literal of a mapped array type: orb.Point{x, y}
+	if _, isArr := ty.Underlying().(*types.Array); isArr {
+		if sm, ok := t.cfg.Structs[name]; ok && sm.Ctor != "" && len(cl.Elts) == len(sm.Fields) {
+			out := "(" + sm.Ctor
+			for _, el := range cl.Elts {
+				if _, isKV := el.(*ast.KeyValueExpr); isKV {
+					return "", t.errf(cl, "keyed array literal")
+				}
+				v, err := t.expr(el)
+				if err != nil {
+					return "", err
+				}
+				out += " " + v
+			}
+			return out + ")", nil
+		}
+	}
 	// a mapped struct with a constructor: named fields in constructor order, defaults for the rest
 	if sm, ok := t.cfg.Structs[name]; ok && sm.Ctor != "" && sm.Defaults != nil {
 		given := map[string]string{}
@@ -1215,6 +1276,9 @@ func (t *LT) block(l []ast.Stmt, k kont) (string, error) {
 	case *ast.ReturnStmt:
 		if t.retHook != nil {
 			return t.retHook(s, k)
+		}
+		if out, ok, err := t.inlineErrTail(s, k); ok {
+			return out, err
 		}
 		var parts []string
 		for _, r := range s.Results {
@@ -1593,6 +1657,44 @@ func (t *LT) rangeStmt(s *ast.RangeStmt, k kont, rest func() (string, error)) (s
 		}
 	}
 	xv := "_"
+	indexAsValue := false
+	if key, ok := s.Key.(*ast.Ident); ok && s.Value == nil && key.Name != "_" {
+		// for i := range X { .. X[i] .. }  with i used only to index X and X not written in the body
+		// is the value loop  for _, x := range X { .. x .. }
+		xsrc := t.src(s.X)
+		want := xsrc + "[" + key.Name + "]"
+		okLoop := true
+		var walk func(n ast.Node) bool
+		walk = func(n ast.Node) bool {
+			switch y := n.(type) {
+			case *ast.IndexExpr:
+				if t.src(y) == want {
+					return false // do not look at the i inside
+				}
+			case *ast.Ident:
+				if y.Name == key.Name {
+					okLoop = false
+				}
+			case *ast.AssignStmt:
+				for _, l := range y.Lhs {
+					if strings.HasPrefix(t.src(l), xsrc) {
+						okLoop = false
+					}
+				}
+			}
+			return true
+		}
+		ast.Inspect(s.Body, walk)
+		if okLoop {
+			if t.elemOf == nil {
+				t.elemOf = map[string]string{}
+			}
+			xv = "v_" + key.Name + "_elem"
+			t.elemOf[want] = xv
+			indexAsValue = true
+			defer delete(t.elemOf, want)
+		}
+	}
 	if s.Value != nil {
 		val, ok := s.Value.(*ast.Ident)
 		if !ok {
@@ -1603,7 +1705,7 @@ func (t *LT) rangeStmt(s *ast.RangeStmt, k kont, rest func() (string, error)) (s
 		}
 	}
 	idx := ""
-	if key, ok := s.Key.(*ast.Ident); ok && key.Name != "_" {
+	if key, ok := s.Key.(*ast.Ident); ok && key.Name != "_" && !indexAsValue {
 		idx = t.bind(key.Name, key.Pos())
 	}
 	// first try a plain fold over the state tuple; if the body returns or may panic, redo it as
@@ -1688,25 +1790,73 @@ func (t *LT) inlineErrHelper(s *ast.AssignStmt, l []ast.Stmt, k kont) (string, b
 	if !ok {
 		return "", false, nil
 	}
+	x, okx := s.Lhs[0].(*ast.Ident)
+	e, oke := s.Lhs[1].(*ast.Ident)
+	ifs, oki := l[1].(*ast.IfStmt)
+	if !okx || !oke || !oki || ifs.Init != nil || ifs.Else != nil ||
+		t.src(ifs.Cond) != e.Name+" != nil" || !terminates(ifs.Body.List) {
+		return "", false, nil
+	}
+	return t.inlineErrCore(c, k,
+		func(v string, rk kont) (string, error) {
+			xv := t.bind(x.Name, x.Pos())
+			r, err := t.block(l[2:], kont{fall: k.fall, cont: k.cont, ret: rk.ret})
+			if err != nil {
+				return "", err
+			}
+			return fmt.Sprintf("let %s := %s in\n  %s", xv, v, r), nil
+		},
+		func(ev string, rk kont) (string, error) {
+			t.env[e.Name] = ev
+			return t.block(ifs.Body.List, kont{fall: k.fall, cont: k.cont, ret: rk.ret})
+		})
+}
+
+// inlineErrTail is  return h(args)  for such a helper h in a function whose results are rendered
+// by the patterns "$, nil" and "nil, $": the same as
+// x, err := h(args); if err != nil { return nil, err }; return x, nil  (a failing result carries
+// no value in the model).
+func (t *LT) inlineErrTail(s *ast.ReturnStmt, k kont) (string, bool, error) {
+	if len(s.Results) != 1 || t.depth > 3 {
+		return "", false, nil
+	}
+	c, ok := s.Results[0].(*ast.CallExpr)
+	okT, hasOk := t.fn.Returns["$, nil"]
+	errT, hasErr := t.fn.Returns["nil, $"]
+	if !ok || !hasOk || !hasErr {
+		return "", false, nil
+	}
+	return t.inlineErrCore(c, k,
+		func(v string, rk kont) (string, error) {
+			t.esc = true
+			return rk.ret(strings.ReplaceAll(okT, "$1", v)), nil
+		},
+		func(ev string, rk kont) (string, error) {
+			t.esc = true
+			return rk.ret(strings.ReplaceAll(errT, "$2", ev)), nil
+		})
+}
+
+func (t *LT) inlineErrCore(c *ast.CallExpr, k kont, okK, errK func(v string, rk kont) (string, error)) (string, bool, error) {
 	key, recv := t.calleeKey(c)
 	if key == "" || t.cfg.SumCallsBy[key] != "" || t.cfg.Calls[key] != nil || t.fn.Atoms[t.src(c)] != "" || t.fn.SumCalls[t.src(c)] != "" {
 		return "", false, nil
 	}
 	fd := t.p.FuncDecls()[key]
-	x, okx := s.Lhs[0].(*ast.Ident)
-	e, oke := s.Lhs[1].(*ast.Ident)
-	ifs, oki := l[1].(*ast.IfStmt)
-	if fd == nil || fd.Body == nil || !okx || !oke || !oki || ifs.Init != nil || ifs.Else != nil ||
-		t.src(ifs.Cond) != e.Name+" != nil" || !terminates(ifs.Body.List) {
+	if fd == nil || fd.Body == nil {
 		return "", false, nil
 	}
 	if fd.Type.Results == nil || fd.Type.Results.NumFields() != 2 {
 		return "", false, nil
 	}
-	// bind the parameters: values by name, method values as function values
+	// bind the parameters: values by name (other terms let-bound), method values as function values
 	henv := map[string]string{}
 	hfun := map[string]*ast.SelectorExpr{}
+	var lets []string
 	bindArg := func(name string, a ast.Expr) error {
+		if id, ok := a.(*ast.Ident); ok && t.fn.SkipParams[id.Name] {
+			return nil // an unmodelled parameter of the caller handed on (ctx, the data source)
+		}
 		if sel, ok := a.(*ast.SelectorExpr); ok {
 			if sl, ok := t.p.Info.Selections[sel]; ok && sl.Kind() == types.MethodVal {
 				hfun[name] = sel
@@ -1718,7 +1868,10 @@ func (t *LT) inlineErrHelper(s *ast.AssignStmt, l []ast.Stmt, k kont) (string, b
 			return err
 		}
 		if strings.ContainsAny(v, " (") {
-			return fmt.Errorf("argument %s of an inlined helper is not a variable", t.src(a))
+			t.nK++
+			n := fmt.Sprintf("h%d_%s", t.nK, name)
+			lets = append(lets, fmt.Sprintf("let %s := %s in\n  ", n, v))
+			v = n
 		}
 		henv[name] = v
 		return nil
@@ -1764,26 +1917,20 @@ func (t *LT) inlineErrHelper(s *ast.AssignStmt, l []ast.Stmt, k kont) (string, b
 				return "", err
 			}
 			t.env, t.funcVals, t.retHook = callerEnv(), cfun, chook
-			xv := t.bind(x.Name, x.Pos())
-			r, err := t.block(l[2:], kont{fall: k.fall, cont: k.cont, ret: rk.ret})
-			if err != nil {
-				return "", err
-			}
-			return fmt.Sprintf("let %s := %s in\n  %s", xv, v, r), nil
+			return okK(v, rk)
 		}
 		ev, err := t.expr(rs.Results[1])
 		if err != nil {
 			return "", err
 		}
 		t.env, t.funcVals, t.retHook = callerEnv(), cfun, chook
-		t.env[e.Name] = ev
-		return t.block(ifs.Body.List, kont{fall: k.fall, cont: k.cont, ret: rk.ret})
+		return errK(ev, rk)
 	}
 	out, err := t.block(t.normStmts(fd.Body.List), k)
 	if err != nil {
 		return "", true, fmt.Errorf("inlining %s: %v", key, err)
 	}
-	return out, true, nil
+	return strings.Join(lets, "") + out, true, nil
 }
 
 // aliasOf recognises  &X[I]
@@ -1828,6 +1975,50 @@ func (t *LT) assign(s *ast.AssignStmt, k kont, rest func() (string, error)) (str
 					c.Lhs = []ast.Expr{ns}
 					return t.assign(&c, k, rest)
 				}
+			}
+		}
+	}
+	// X[I].F, X[I].G = E1, E2 : a sequence of stores when no Ei reads the slice written to
+	if len(s.Lhs) > 1 && len(s.Lhs) == len(s.Rhs) && s.Tok == token.ASSIGN {
+		allElems := true
+		for _, l := range s.Lhs {
+			if _, isId := l.(*ast.Ident); isId {
+				allElems = false
+			}
+		}
+		if allElems {
+			indep := true
+			for _, l := range s.Lhs {
+				root := l
+				for {
+					switch x := root.(type) {
+					case *ast.SelectorExpr:
+						if _, ok := x.X.(*ast.IndexExpr); ok {
+							root = x.X
+							continue
+						}
+					case *ast.IndexExpr:
+						root = x.X
+						continue
+					}
+					break
+				}
+				for _, r := range s.Rhs {
+					if strings.Contains(t.src(r), t.src(root)) {
+						indep = false
+					}
+				}
+			}
+			if indep {
+				var seq func(i int) (string, error)
+				seq = func(i int) (string, error) {
+					if i == len(s.Lhs) {
+						return rest()
+					}
+					one := &ast.AssignStmt{Lhs: []ast.Expr{s.Lhs[i]}, Tok: token.ASSIGN, Rhs: []ast.Expr{s.Rhs[i]}}
+					return t.assign(one, k, func() (string, error) { return seq(i + 1) })
+				}
+				return seq(0)
 			}
 		}
 	}
@@ -1940,7 +2131,23 @@ func (t *LT) assign(s *ast.AssignStmt, k kont, rest func() (string, error)) (str
 	default:
 		return "", t.errf(s, "unsupported assignment operator %s", s.Tok)
 	}
+	selfKey := ""
+	if sel, ok := lhs.(*ast.SelectorExpr); ok && op == 0 {
+		if ix, ok := sel.X.(*ast.IndexExpr); ok && strings.Contains(t.src(rhs), t.src(lhs)) {
+			if sm := t.structOf(ix); sm != nil && sm.proj(sel.Sel.Name) != "" {
+				// the right-hand side reads the very field being written: inside the setter it is the old value
+				selfKey = t.src(lhs)
+				if t.fn.Atoms == nil {
+					t.fn.Atoms = map[string]string{}
+				}
+				t.fn.Atoms[selfKey] = "(" + sm.proj(sel.Sel.Name) + " el)"
+			}
+		}
+	}
 	val, vpartial, err := t.exprP(rhs)
+	if selfKey != "" {
+		delete(t.fn.Atoms, selfKey)
+	}
 	if err != nil {
 		if id, ok := lhs.(*ast.Ident); ok && s.Tok == token.DEFINE {
 			// a local whose initialiser is outside the grammar is an error only if it is used
